@@ -1,0 +1,19 @@
+//go:build verif
+// +build verif
+
+package dsstate
+
+import (
+	ds "github.com/ipfs/go-datastore"
+)
+
+// VerifHook, when set, observes state-wide operations (only with the "verif"
+// build tag; used by the /verif harness). ev is "Unmarshal": a dump has just
+// been loaded into st; store is the datastore st reads from.
+var VerifHook func(ev string, st *State, store ds.Read)
+
+func verifHook(ev string, st *State) {
+	if h := VerifHook; h != nil {
+		h(ev, st, st.dsRead)
+	}
+}
